@@ -441,6 +441,9 @@ class Tdf:
         if isinstance(type, Block):
             type = type.type
 
+        if type == BlockType.unusedSlot:
+            raise ValueError("An unused slot is not a block and can't be removed")
+
         # find block
         try:
             oldEntryPos, oldEntry = next(
